@@ -2032,7 +2032,7 @@ class BSP:
                     lightmap_size_x, lightmap_size_y,
                     vitamin_flags,
                 ) = face_data
-                texinfo = self.texinfo[texinfo_ind]
+                texinfo = self.texinfo[texinfo_ind] if texinfo_ind >= 0 else None
 
                 # All these values are unused.
                 side = False
@@ -2074,7 +2074,8 @@ class BSP:
                 # face data has invalid texinfo, so copy ours on top of it.
                 if orig_faces is not None:
                     orig_face = orig_faces[orig_face_ind]
-                    orig_face.texinfo = texinfo = self.texinfo[texinfo_ind]
+                    # -1 is written for faces with no texinfo.
+                    orig_face.texinfo = texinfo = self.texinfo[texinfo_ind] if texinfo_ind >= 0 else None
                     try:
                         orig_face.hammer_id = hammer_id = hammer_ids[i]
                     except IndexError:
